@@ -317,10 +317,11 @@ class CallMixin:
             ex = smt.fresh("exc", IntS)
             es.assume(ex >= es.alloc, self.classes.isa(cls, smt.CLS[ex]))
             es.alloc = ex + 1
+            excsv = SV(smt.mk_ref(ex), "obj:" + cname)
             for cl in spec.get("ensures_exc", []):
-                es.assume(self.spec_bool(cl, es, dict(es.locals, **env), old=old))
+                es.assume(self.spec_bool(cl, es, dict(es.locals, **env), old=old, extra={"exc": excsv}))
                 self.note(f"ASSUMED on exceptional exit of opaque callee {txt}: {cl}")
-            outs.append(Outcome("raise", es, SV(smt.mk_ref(ex), "obj:" + cname)))
+            outs.append(Outcome("raise", es, excsv))
         if spec.get("counter"):
             g = "ghost_" + spec["counter"]
             base.locals[g] = sv_int(Val.i(base.locals[g].t) + 1)
